@@ -770,6 +770,10 @@ func ruleIVProvenance(c *core.Ctx) {
 					o.Fact("fixed IV by specification: %s", why)
 					return
 				}
+				if allowedOrOnlyCalledBy(c, fn, func(k string) bool { _, ok := fixedIV[k]; return ok }, 0) {
+					o.Fact("fixed IV by specification: helper called only by functions with a fixed IV")
+					return
+				}
 				iv := core.ObjOf(info, cv.Call.Args[1])
 				if iv == nil {
 					o.Fail("the IV is not a local variable")
